@@ -17,7 +17,7 @@ TASK: produce {n} DIFFERENT source changes (call them m1{', m2' if n>1 else ''}{
  (c) still passes the EXISTING test suite unedited — at minimum run `go test -count=1` for every package you touched and every package that plausibly exercises it (e.g. ./bft/... ./consensus/... ./packer/... ./chain/... ./cmd/thor/node/... ./txpool/... as relevant) and report what you ran; if an existing test fails, the change is not acceptable — pick another;
  (d) is REALISTIC (something a maintainer could plausibly write: a wrong comparison, a dropped guard, a cache not invalidated, a mis-ordered write, an off-by-one, a forgotten case) and needs something SPECIFIC to manifest — a particular interleaving, a crash or fault at a particular point, a multi-step sequence of operations, an unusual input, or two cooperating sites that each look fine alone — NOT something ordinary use would expose at once;
  (e) touches only non-test Go source of thor itself; do not touch files named verif_hooks*.go or guarded by the build tag `verif`, do not edit tests, go.mod or vendored deps.
-For each change also write a DEMONSTRATION: a Go test (may live in the touched package as a new _test.go file, or a small program) that FAILS with the change applied and PASSES on the original tree; verify both directions yourself (use `git stash` / `git checkout` inside the worktree to flip).
+For each change also write a DEMONSTRATION: a Go test (may live in the touched package as a new _test.go file, or a small program) that FAILS with the change applied and PASSES on the original tree; verify both directions yourself (flip with `git diff > /tmp/x.patch; git apply -R /tmp/x.patch; ... ; git apply /tmp/x.patch` — NEVER use `git stash`: the stash is shared by all worktrees of this repository and other people work in sibling worktrees).
 
 Environment: no network. In every shell: `export GOFLAGS=-mod=mod GOPROXY=off` (do NOT set GOSUMDB=off or GOTOOLCHAIN=local). `go build ./...` takes ≈50 s cold. The repo's README/docs are in the worktree. Some files in the tree named verif_hooks.go (build tag verif) are test instrumentation: ignore them.
 
